@@ -49,17 +49,15 @@ mutant('c06-eof-kind','C06','NextToken#post:eof',L,'''	return newToken(
 		Unknown,
 		"EOF",''')
 mutant('c06-dispatch-percent','C06','NextToken#post:operator',L,'			return self.makeReminder(), nil','			return self.makeDiv(), nil')
-mutant('c06-comment-line','C06','skipLineComment#',L,'''		self.advance()
+mutant('c06-comment-line','C06','skipLineComment#',L,'''	if self.currentChar != nil {
+		self.advance()
 	}
-
-	self.advance()
 }
 
-func (self *Lexer) skipBlockComment() {''','''		self.advance()
+func (self *Lexer) skipBlockComment() {''','''	if self.currentChar != nil {
+		self.advance()
+		self.advance()
 	}
-
-	self.advance()
-	self.advance()
 }
 
 func (self *Lexer) skipBlockComment() {''')
